@@ -198,6 +198,11 @@ def replay(case):
     if 'tamper' in case:
         t = case['tamper']
         crypto, il = tag_keys(t['tag'])
+        if 'set' in t:
+            b = bytearray(bytes.fromhex(t['data']))
+            b[t['pos']] = t['set']
+            ok, why = tamper_ok(bytes(b), crypto)
+            return [] if ok else [Failure('tamper-undetected:header.next_payload', f'octet {t["pos"]} set to {t["set"]} is {why}')]
         return check_tamper(bytes.fromhex(t['data']), crypto, il, [(t['pos'], t['bit'])], tag=t['tag'])
     if 'trunc' in case or 'ext' in case:
         t = case.get('trunc') or case.get('ext')
@@ -264,11 +269,22 @@ def w_rt(task):
     return st_
 
 
+def representatives():
+    """the corpus messages plus empty protected messages with Message ID 0 (the first request of the original responder
+    and its reply), for each exchange type that can carry one"""
+    reps = list(corpus.inner_bytes())
+    for exch, resp in ((37, False), (37, True), (36, False)):
+        m = corpus.hdr(exch, 0, response=resp, initiator=resp)
+        reps.append((f'empty_id0_{exch}_{"res" if resp else "req"}', W.enc_header(m, 46, 0), 0, b''))
+    return reps
+
+
 def w_sweep(task):
-    """exhaustive byte x bit sweep of one representative message under one key set"""
+    """exhaustive byte x bit sweep of one representative message under one key set, plus every value of the header's
+    first-payload octet"""
     idx, ks = task
     st_ = Stats()
-    name, h, first, chain = corpus.inner_bytes()[idx]
+    name, h, first, chain = representatives()[idx]
     salt = b'sw'
     bits, integ, sk_e, sk_a = mk_keys(ks, salt)
     crypto = mk_crypto(ks, salt)
@@ -281,6 +297,19 @@ def w_sweep(task):
         fails.append(Failure('reference-message-rejected', f'reference-protected {name} does not parse under its keys'))
     fails += check_tamper(data, crypto, il, [(p, b) for p in range(len(data)) for b in range(8)], st_, tag)
     fails += check_trunc_ext(data, crypto, st_, tag)
+    for v in range(256):
+        if v == data[16]:
+            continue
+        b = bytearray(data)
+        b[16] = v
+        ok2, why2 = tamper_ok(bytes(b), crypto)
+        st_.evals += 1
+        st_.classes['tamper:first-payload-octet-value'] += 1
+        if not ok2:
+            fails.append(Failure('tamper-undetected:header.next_payload', f'rewriting the first-payload octet of {name} from 46 to '
+                                                                          f'{v} is {why2}',
+                                 {'tamper': {'data': data.hex(), 'pos': 16, 'set': v, 'tag': tag}}))
+            break
     for p in range(len(data)):
         st_.nontrivial.add(f'{name}:{ks}:{p}')
     st_.klass(f'sweep:{name}:aes{bits}/integ{integ}')
@@ -367,7 +396,7 @@ def run(ctx):
     tasks = []
     for i in range(6):
         tasks.append(('rt', (500 if q else 16000, ctx.seed * 64 + i, 25 if q else 10)))
-    reps = corpus.inner_bytes()
+    reps = representatives()
     sweeps = [(i, (i + ctx.seed) % 6) for i in range(len(reps))] if q else \
         [(i, ks) for i in range(len(reps)) for ks in range(6)]
     for s in sweeps:
